@@ -47,7 +47,7 @@ ASSUMPTIONS = ["'@' is judged against struct's '=' form (documented synonym: sta
                'NaN payload bits fall under T11; every other float (incl. -0.0, subnormals, inf) is compared byte for byte',
                'an array.array whose kind and width match an 8-bit Array dtype spelled with an endianness suffix '
                '(intle8, uintbe8, ...) may be accepted or rejected (statement only says "only when"); if accepted the values must agree',
-               'byteswap patterns are valid and repeat=True (repeat=False and invalid windows belong to C03)']
+               'byteswap patterns are valid for their window, with repeat=True or False (invalid windows and patterns belong to C03)']
 
 CODES = 'bBhHlLiIqQefd'
 INT_CODES = 'bBhHlLiIqQ'
@@ -888,7 +888,7 @@ def judge_endian(ctx, c):
 
 
 # ==== BitArray.byteswap with patterns ======================================================================
-def bs_model(bits: str, sizes, start: int, end: int):
+def bs_model(bits: str, sizes, start: int, end: int, once: bool = False):
     """(content after, repeats): pattern of byte sizes applied from `start`, repeated in its entirety
     as often as it fits into [start, end)."""
     region = bits[start:end]
@@ -898,6 +898,8 @@ def bs_model(bits: str, sizes, start: int, end: int):
     if tot == 0:
         return bits, 0
     reps = len(region) // tot
+    if once:
+        reps = min(reps, 1)         # repeat=False: the pattern is applied once, and only if all of it fits
     out = []
     p = 0
     for _ in range(reps):
@@ -948,7 +950,8 @@ def judge_byteswap(ctx, c):
     as_tuple = c.get('tuple', False)
     if as_tuple and isinstance(arg, list):
         arg = tuple(arg)
-    exp, reps = bs_model(bits, sizes, s0, e0)
+    once = bool(c.get('once'))
+    exp, reps = bs_model(bits, sizes, s0, e0, once)
     cls = util.CLASSES[c.get('cls', 'BitArray')]
     u = util.mk(cls, bits)
     kw = {}
@@ -956,7 +959,9 @@ def judge_byteswap(ctx, c):
         kw['start'] = start
     if end is not None:
         kw['end'] = end
-    wc = 'whole' if (s0, e0) == (0, L) else ('aligned-window' if s0 % 8 == 0 else 'unaligned-window')
+    if once:
+        kw['repeat'] = False
+    wc = ('whole' if (s0, e0) == (0, L) else ('aligned-window' if s0 % 8 == 0 else 'unaligned-window')) + (',once' if once else '')
     g = call(lambda: (u.byteswap(arg, **kw) if pat is not None or kw else u.byteswap(), util.B(u)))
     ctx.op('BitArray.byteswap', outcome(g))
     if g[0] == 'exc':
@@ -1175,6 +1180,8 @@ def gen_byteswap(ctx):
         case['end'] = end
     if isinstance(pat, list) and pat and pat[0] != 's' and rng.random() < 0.3:
         case['tuple'] = True
+    if rng.random() < 0.25:
+        case['once'] = True         # repeat=False with a pattern that is valid for the window (invalid ones stay with C03)
     return case
 
 
